@@ -196,13 +196,18 @@ def run_case(rec, case):
         if kind == 'solver':
             n = int(rng.integers(1, 9)); flavour = str(rng.choice(['general', 'symmetric', 'spd', 'saddle'])); sparse = bool(rng.integers(0, 2))
             A = rand_solvable(n, flavour)
-            sig.update(flavour=flavour, sparse=sparse)
-            Aop = scipy.sparse.csr_matrix(A) if sparse else A
+            # every scipy storage format denotes the same matrix (banded matrices typically arrive in DIA format from scipy.sparse.diags)
+            fmt = str(rng.choice(['csr', 'csr', 'csc', 'coo', 'dia', 'bsr', 'lil'])) if sparse else 'dense'
+            if sparse and rng.random() < 0.3:
+                A = np.triu(np.tril(A, 1), -1)            # tridiagonal part: still SPD / symmetric / diagonally dominant as drawn
+                if flavour == 'saddle': flavour = 'symmetric'; A = A + A.T + (2 * n) * np.diag(np.sign(np.diag(A)) + (np.diag(A) == 0))
+            sig.update(flavour=flavour, sparse=sparse, format=fmt)
+            Aop = scipy.sparse.csr_matrix(A).asformat(fmt) if sparse else A
             ok, S = guarded(rec, case, dict(sig, route='make_solver'), operators.make_solver, Aop, symmetric=(flavour != 'general'), spd=(flavour == 'spd'))
             mats = [A]
         else:
             nf = int(rng.integers(1, 4)); mats = [rand_solvable(int(rng.integers(1, 5)), 'general') for _ in range(nf)]
-            ops = [scipy.sparse.csr_matrix(A) if rng.random() < 0.5 else A for A in mats]
+            ops = [scipy.sparse.csr_matrix(A).asformat(str(rng.choice(['csr', 'csc', 'coo', 'dia', 'bsr', 'lil']))) if rng.random() < 0.5 else A for A in mats]
             ok, S = guarded(rec, case, dict(sig, route='make_kronecker_solver'), operators.make_kronecker_solver, *ops)
         if ok:
             D = mats[0]
